@@ -3,6 +3,7 @@
 //!        2 constructor / setter sequence (k0, ops: 0 t _ = set_kty | 1 fam priv = set_params | 2 fam priv = from_params)
 use crate::common::*;
 use identity_jose::jwk::*;
+use identity_core::convert::FromJson;
 use serde_json::{json, Map, Value};
 
 const MEMBERS: &[(i64, &str)] = &[(1, "crv"), (2, "x"), (3, "y"), (4, "d"), (5, "n"), (6, "e"), (7, "p"), (8, "q"), (9, "dp"), (10, "dq"), (11, "qi"), (12, "oth"), (13, "k"),
@@ -61,6 +62,10 @@ pub fn exec(case: &[i64]) -> Outcome {
       describe(&j, &mut obs);
       if kty_code(j.kty()) != family(&j) { why = Some("declared kty differs from the parameter family".into()); }
       let (own_ids, own_json) = json_members(&j);
+      // members of other parameter families are ignored on reading; everything else must come back
+      let fam_members: &[i64] = match family(&j) { 0 => &[1, 2, 3, 4], 1 => &[4, 5, 6, 7, 8, 9, 10, 11, 12], 2 => &[13], _ => &[1, 2, 4] };
+      let src_kept = { let mut k = m.clone(); for id in 1..=13i64 { if !fam_members.contains(&id) { k.remove(mname(id)); } } Value::Object(k) };
+      if serde_json::to_value(&j).ok().as_ref() != Some(&src_kept) { why = Some("an accepted JWK does not serialise back to the members it was read from (a member was dropped or altered)".into()); }
       let has_private = own_json.keys().any(|k| PRIVATE.contains(&k.as_str()));
       if j.is_public() == has_private { why = Some("is_public differs from 'has no private member'".into()); }
       // thumbprint: only the required public members, lexicographic, unaffected by the rest
@@ -105,7 +110,7 @@ pub fn exec(case: &[i64]) -> Outcome {
         }
       }
       put_lp(&mut obs, &t_ids);
-      let _ = own_ids;
+      put_lp(&mut obs, &own_ids);      // the members the accepted key itself serialises to
       let o = Outcome::new(obs).class(if has_private { "deser-ok-private" } else { "deser-ok-public" });
       match why { Some(w) => o.fail(&w), None => o }
     }
@@ -140,6 +145,29 @@ pub fn exec(case: &[i64]) -> Outcome {
       if used_params_mut { o = o.known("K_params_mut"); }
       match why { Some(w) => o.fail(w), None => o }
     }
+    3 => {
+      // conversion from the JSON-proof-token key type (jwk_ext.rs): [declared kty, shape 0 EC / 1 OKP, private, x5u 0 none / 1 url / 2 not a url, kid]
+      let (decl, shape, private, x5u, kid) = (v[0], v[1], v[2] != 0, v[3], v[4] != 0);
+      let mut m = Map::new(); m.insert("kty".into(), json!(kty_name(decl))); m.insert("crv".into(), json!("BLS12381G2")); m.insert("x".into(), json!("v1002"));
+      if shape == 0 { m.insert("y".into(), json!("v1003")); } if private { m.insert("d".into(), json!("v1004")); } if kid { m.insert("kid".into(), json!("v1023")); }
+      match x5u { 1 => { m.insert("x5u".into(), json!("https://a.example/v1024")); } 2 => { m.insert("x5u".into(), json!("not a url")); } _ => {} }
+      let ext: jsonprooftoken::jwk::key::Jwk = match serde_json::from_value(Value::Object(m)) { Ok(e) => e, Err(_) => return Outcome::new(vec![-4]).class("foreign-rejected").trivial() };
+      let is_ec = matches!(ext.key_params, jsonprooftoken::jwk::alg_parameters::JwkAlgorithmParameters::EllipticCurve(_));
+      if is_ec != (shape == 0) { return Outcome::new(vec![-4]).class("foreign-other-variant").trivial(); }
+      match Jwk::try_from(ext) {
+        Err(_) => Outcome::new(vec![0]).class("foreign-refused"),
+        Ok(j) => {
+          let mut obs = vec![1]; describe(&j, &mut obs); let (ids, _) = json_members(&j);
+          // BLS curve name is member 1 like any crv
+          put_lp(&mut obs, &ids);
+          let mut o = Outcome::new(obs).class("foreign-converted");
+          if kty_code(j.kty()) != family(&j) { o = o.fail("declared kty differs from the parameter family after conversion from the foreign key type"); }
+          else if Jwk::from_json_value(serde_json::to_value(&j).unwrap()).ok().as_ref() != Some(&j) { o = o.fail("converted key does not survive its own JSON round trip"); }
+          else if j.to_public().map(|p| p.kty()) != Some(j.kty()) { o = o.fail("to_public changes the key type of a converted key"); }
+          o
+        }
+      }
+    }
     _ => Outcome::new(vec![-998]).fail("bad case kind"),
   }
 }
@@ -166,6 +194,8 @@ pub fn gen(rng: &mut Rng, thorough: bool, sink: &mut Sink) {
     // parameter-family mixtures and missing required members
     for sub in subsets(&[1, 2, 3, 5, 6, 13, 4]) { emit(sink, kty, None, sub, "member-lattice"); }
   }
+  // conversion from the foreign (JSON-proof-token) key type: every declared kty x variant x private x x5u x kid
+  for decl in 0..4 { for shape in 0..2 { for private in 0..2 { for x5u in 0..3 { for kid in 0..2 { sink.case(vec![3, decl, shape, private, x5u, kid], "foreign-conversion"); } } } } }
   // constructor / setter sequences, exhaustive to depth 2 (3 in thorough), random beyond
   let mut steps: Vec<[i64; 3]> = Vec::new();
   for t in 0..4 { steps.push([0, t, 0]); for p in 0..2 { steps.push([1, t, p]); steps.push([2, t, p]); } }
